@@ -1,4 +1,5 @@
 import Verif.Model.Common
+import Verif.Model.Policy
 /-!
   Model of ACME external account binding (C20).
 
@@ -13,6 +14,9 @@ import Verif.Model.Common
   * `acme/db/nosql/eab.go` `GetExternalAccountKey`,
                           `UpdateExternalAccountKey`            → `getKey` + provisioner test, `updateKey`
   * `acme/db/nosql/account.go` `CreateAccount`                  → the `.validated` step
+  * `acme/api/order.go`   `NewOrder` (account-level policy gate only),
+                          `newACMEPolicyEngine`, `isIdentifierAllowed` → `keyOfAccount`, `orderGate`
+                          (the engine itself is the C04 model `Verif.Policy`)
 
   Everything that is a string in Go and is only ever compared for equality (key ids, provisioner
   ids, account ids, JWK thumbprints, URLs) is a `Nat` here; `0` stands for the empty string.
@@ -244,5 +248,49 @@ def countVia (k : Nat) : List Resp → Nat
   | _ :: xs => countVia k xs
 
 def threadResps (ts : List Thread) : List Resp := ts.filterMap Thread.resp
+
+/-! ### the policy attached to a binding key limits the orders of the account bound to it
+
+  `NewOrder`: under a provisioner with RequireEAB the key bound to the account is looked up
+  (`GetExternalAccountKeyByAccountID`), a name-policy engine is built from the key's policy
+  (`newACMEPolicyEngine` → `authority/policy.NewX509PolicyEngine`: no key, no policy or a policy
+  without names ⇒ no engine), and **every identifier value, untrimmed** (`*.x` stays `*.x`), goes
+  through `AreSANsAllowed` on its own before the provisioner's and the authority's policies are asked.
+  The engine and its verdicts are the C04 model. -/
+
+/-- `GetExternalAccountKeyByAccountID` as a deployment with account policies answers it: the key of
+    this provisioner that is bound to the account -/
+def keyOfAccount (st : State) (prov acc : Nat) : Option EKey :=
+  st.keys.find? fun k => k.prov == prov && k.bound && k.account == acc
+
+inductive OrderGate where
+  | pass                      -- on to the provisioner / authority policies and order creation
+  | rejected                  -- 400 rejectedIdentifier
+  | engineError               -- 500: the key's policy does not build an engine
+  | crash
+  deriving DecidableEq, Repr
+
+/-- the identifiers one after the other; each is the `Names` that `SplitSANs` makes of the one value -/
+def allAllowed (e : Policy.Engine) : List Policy.Names → OrderGate
+  | [] => .pass
+  | n :: ns =>
+    match Policy.validateNames e n with
+    | .allow => allAllowed e ns
+    | .deny _ _ => .rejected
+    | .crash => .crash
+
+/-- `pol k` = what `NewX509PolicyEngine(k.Policy)` gives: `none` no engine, `some (.ok e)` engine `e`,
+    `some .bad` / `some .crash` the policy's rules are not accepted -/
+def orderGate (st : State) (requireEAB : Bool) (prov acc : Nat)
+    (pol : Nat → Option (Policy.Build Policy.Engine)) (idents : List Policy.Names) : OrderGate :=
+  if !requireEAB then .pass
+  else match keyOfAccount st prov acc with
+    | none => .pass
+    | some k =>
+      match pol k.id with
+      | none => .pass
+      | some .bad => .engineError
+      | some .crash => .crash
+      | some (.ok e) => allAllowed e idents
 
 end Verif.EAB
